@@ -229,6 +229,10 @@ class _CommonFile:
 
         # don't bother preserving trailing whitespace, but do preserve trailing comments
         if skipped.rstrip():
+            if not skipped.endswith(b"\n"):
+                # final comment line lacked a newline; add one so that records
+                # appended later don't get glued onto (and swallowed by) the comment.
+                skipped += b"\n"
             source.append((_SKIPPED, skipped))
 
         # NOTE: not replacing ._records until parsing succeeds, so loading is atomic.
